@@ -32,6 +32,23 @@ check('C01', 'model_checking',
       'class, full contents), plus every read probe for every key/gap in every state.',
       TB, 'explicit-state BFS over the implementation vs reference model', 'E1', 'DESIGN.md §4 C01')
 
+check('C02', 'model_checking',
+      'In every reachable shape of the shape spaces (BFS fixed point, C and Python, all families): every '
+      'range call for every (min,max) over keys, gap positions, omitted and None x 4 exclusion flag '
+      'combinations x keys/values/items/iter*, minKey/maxKey of every bound, and len/index/slice/'
+      'descending re-index probes of the lazy sequences, compared with an interval filter over the '
+      'reference model.',
+      TB, 'explicit-state BFS over the implementation; exhaustive query cube per state vs interval filter',
+      'E1', 'DESIGN.md §4 C02')
+
+check('C03', 'model_checking',
+      'After every transition of the shape spaces (full mutating alphabet, node sizes {2,3,4}^2 set on '
+      'the classes and via subclasses): t._check(), BTrees.check.check(t) and an independent B+-tree '
+      'walk over the recursive __getstate__ dump (chain/descent agreement, no empty node, uniform '
+      'kinds, key ranges, capacity limits), plus descent and chain contents equal to the model.',
+      TB, 'explicit-state BFS over the implementation; invariant checked after every transition',
+      'E1', 'DESIGN.md §4 C03')
+
 PENDING = ['C%02d' % i for i in range(1, 20)]
 
 
